@@ -1,6 +1,6 @@
 (* msgstorage: invariants of the pending maps / persist / Kill model (Store/MsgStore.v).
    C04 store core (durable, no phantoms, order), C05 store clause (not early), C17 isolation. *)
-From Coq Require Import String List NArith Bool Lia ZifyN ZifyNat ZifyBool Sorted.
+From Coq Require Import String List Arith NArith Bool Lia ZifyN ZifyNat ZifyBool Sorted.
 From GMQ Require Import Store.KeyFmt Store.gen.KeyFmtGen Store.gen.OptsGen Store.KV Store.SrvStore Store.MsgStore Store.StoreSpec
   Proofs.StoreKVProofs Proofs.StoreKeyProofs.
 Import ListNotations.
@@ -758,3 +758,165 @@ Proof. vm_compute. repeat split; reflexivity. Qed.
 Lemma f41_exists : exists ls q, existsb (is_purge_of q) ls = true /\
   map m_id (fst (ms_recover (fst (ms_run (ms_init Badger true true) ls)) q 0)) = [100].
 Proof. exists [MAdd (mk 100 1) qa; MPurge qa; MPersistTick; MKill], qa. vm_compute. split; reflexivity. Qed.
+
+(* ------------------------------------------------------------ C04: recover lists survivors in id order *)
+Definition dv (acc : N) (l : bytes) : N := fold_left (fun a c => 10 * a + (c - 48)) l acc.
+Definition is_digit (c : N) : Prop := 48 <= c < 58.
+
+Lemma dv_lt_acc : forall s t a1 a2, length s = length t -> Forall is_digit s -> Forall is_digit t -> a1 < a2 -> dv a1 s < dv a2 t.
+Proof.
+  induction s as [|x s IH]; intros t a1 a2 Hl Hs Ht Ha; destruct t as [|y t]; try discriminate; [exact Ha|].
+  change (dv a1 (x :: s)) with (dv (10 * a1 + (x - 48)) s). change (dv a2 (y :: t)) with (dv (10 * a2 + (y - 48)) t).
+  inversion Hs; subst. inversion Ht; subst. unfold is_digit in *. apply IH; try assumption; [cbn in Hl; lia | lia].
+Qed.
+
+Lemma dv_lex : forall s t a, length s = length t -> Forall is_digit s -> Forall is_digit t -> kcmp s t = Lt -> dv a s < dv a t.
+Proof.
+  induction s as [|x s IH]; intros t a Hl Hs Ht Hc; destruct t as [|y t]; try discriminate.
+  inversion Hs; subst. inversion Ht; subst. cbn [kcmp] in Hc.
+  change (dv a (x :: s)) with (dv (10 * a + (x - 48)) s). change (dv a (y :: t)) with (dv (10 * a + (y - 48)) t).
+  destruct (N.compare x y) eqn:E; try discriminate.
+  - apply N.compare_eq in E. subst. apply IH; try assumption. cbn in Hl. lia.
+  - pose proof (proj1 (N.compare_lt_iff _ _) E) as L. unfold is_digit in *. apply dv_lt_acc; try assumption; [cbn in Hl; lia | lia].
+Qed.
+
+Lemma kcmp_app_l : forall p s t, kcmp (p ++ s) (p ++ t) = kcmp s t.
+Proof. induction p as [|x p IH]; intros; cbn; [reflexivity|]. rewrite N.compare_refl. apply IH. Qed.
+
+Lemma fmt_id_ok : forall id, id_ok id = true -> fmt_id msg_id_signed msg_id_base id = digits 10 id.
+Proof.
+  intros id H. unfold id_ok in H. apply N.ltb_lt in H. rewrite fmt_id_shape. cbv zeta.
+  assert (T : two63 < two64) by (vm_compute; reflexivity).
+  rewrite N.mod_small by lia. destruct (N.leb_spec two63 id); [lia | reflexivity].
+Qed.
+
+Lemma digits_are_digits : forall n, Forall is_digit (digits 10 n).
+Proof. intro n. unfold digits. apply digits_fuel_chars. Qed.
+
+Lemma key_lt_id_lt : forall q a b, id_ok a = true -> id_ok b = true ->
+  length (fmt_id msg_id_signed msg_id_base a) = length (fmt_id msg_id_signed msg_id_base b) ->
+  kcmp (msg_key q a) (msg_key q b) = Lt -> a < b.
+Proof.
+  intros q a b Ha Hb Hl Hc. rewrite !msg_key_shape in Hc. rewrite !kcmp_app_l in Hc.
+  cbn [kcmp] in Hc. rewrite N.compare_refl in Hc. rewrite !fmt_id_ok in * by assumption.
+  pose proof (dv_lex _ _ 0 Hl (digits_are_digits a) (digits_are_digits b) Hc) as H.
+  unfold id_ok in *. apply N.ltb_lt in Ha, Hb. assert (T : two63 < two64) by (vm_compute; reflexivity).
+  change (dv 0 (digits 10 a)) with (dec_val (digits 10 a)) in H. change (dv 0 (digits 10 b)) with (dec_val (digits 10 b)) in H.
+  rewrite !digits_val in H by lia. exact H.
+Qed.
+
+(* sublists produced by the iteration keep the key order *)
+Lemma ksorted_tail {V} : forall e (m : kv V), ksorted (e :: m) -> ksorted m.
+Proof. intros e m H. apply ksorted_inv in H. tauto. Qed.
+
+Lemma ksorted_while_prefix {V} : forall (m : kv V) p, ksorted m -> ksorted (kv_while_prefix m p).
+Proof.
+  induction m as [|[k v] t IH]; intros p H; cbn; [constructor|]. destruct (is_prefix p k); [|constructor].
+  apply ksorted_inv in H as [Ht Hf]. constructor; [apply IH; exact Ht|].
+  apply Forall_forall. intros x Hx. apply in_while_prefix in Hx as [Hx _]. eapply Forall_forall in Hf; eassumption.
+Qed.
+
+Lemma ksorted_take_n {V} : forall n (m : kv V), ksorted m -> ksorted (take_n n m).
+Proof.
+  intros n m. revert n. induction m as [|e t IH]; intros n H; cbn; [constructor|]. destruct (n =? 0); [constructor|].
+  apply ksorted_inv in H as [Ht Hf]. constructor; [apply IH; exact Ht|].
+  apply Forall_forall. intros x Hx. apply in_take_n in Hx. eapply Forall_forall in Hf; eassumption.
+Qed.
+
+Lemma ksorted_iter_from {V} : forall (m : kv V) p from limit, ksorted m -> ksorted (kv_iter_prefix_from m p from limit).
+Proof.
+  intros. unfold kv_iter_prefix_from, apply_limit. destruct (limit =? 0); [|apply ksorted_take_n];
+    apply ksorted_while_prefix, ksorted_seek; assumption.
+Qed.
+
+Lemma sorted_ids_of_keys : forall q (L : kv msg), ksorted L ->
+  (forall k v, In (k, v) L -> k = msg_key q (m_id v) /\ id_ok (m_id v) = true) ->
+  (forall k1 v1 k2 v2, In (k1, v1) L -> In (k2, v2) L ->
+     length (fmt_id msg_id_signed msg_id_base (m_id v1)) = length (fmt_id msg_id_signed msg_id_base (m_id v2))) ->
+  sorted_ids (map snd L) = true.
+Proof.
+  induction L as [|[k1 v1] t IH]; intros Hs Hk Hl; [reflexivity|].
+  destruct t as [|[k2 v2] t']; [reflexivity|]. cbn [map snd sorted_ids].
+  apply ksorted_inv in Hs as [Ht Hf]. apply andb_true_iff. split.
+  - apply N.ltb_lt. destruct (Hk k1 v1 (or_introl eq_refl)) as [E1 O1]. destruct (Hk k2 v2 (or_intror (or_introl eq_refl))) as [E2 O2].
+    inversion Hf as [|? ? Hlt _]; subst. unfold klt_e in Hlt. cbn [fst] in Hlt.
+    eapply key_lt_id_lt; try eassumption. eapply Hl; [left; reflexivity | right; left; reflexivity].
+  - apply IH; [exact Ht | |].
+    + intros k v H. apply Hk. right. exact H.
+    + intros. eapply Hl; right; eassumption.
+Qed.
+
+Lemma same_dec_len_in : forall ids a b, same_dec_len ids = true -> In a ids -> In b ids ->
+  length (fmt_id msg_id_signed msg_id_base a) = length (fmt_id msg_id_signed msg_id_base b).
+Proof.
+  intros ids a b H Ha Hb. destruct ids as [|i r]; [contradiction|]. cbn in H. rewrite forallb_forall in H.
+  assert (X : forall x, In x (i :: r) -> length (fmt_id msg_id_signed msg_id_base x) = length (fmt_id msg_id_signed msg_id_base i)).
+  { intros x [Hx|Hx]; [subst; reflexivity|]. apply Nat.eqb_eq. apply H. exact Hx. }
+  rewrite (X a Ha), (X b Hb). reflexivity.
+Qed.
+
+Lemma ids_for_in : forall q ls m, In (MAdd m q) ls \/ In (MUpdate m q) ls -> In (m_id m) (ids_for q ls).
+Proof.
+  intros q ls m H. unfold ids_for. apply in_flat_map. destruct H as [H|H]; [exists (MAdd m q) | exists (MUpdate m q)];
+    (split; [exact H|]); cbn; rewrite bytes_eqb_refl; left; reflexivity.
+Qed.
+
+(* the engine kind never changes *)
+Lemma engine_swap : forall st, ms_engine (fst (ms_swap st)) = ms_engine st.
+Proof. intro st. unfold ms_swap. destruct (ms_fly st); reflexivity. Qed.
+Lemma engine_batch : forall st, ms_engine (fst (ms_batch st)) = ms_engine st.
+Proof.
+  intro st. unfold ms_batch. destruct (ms_fly st) as [f|]; [|reflexivity]. destruct (if_stage f); [|reflexivity].
+  destruct (eng_batch (ms_engine st) (ms_db st) (batch_of f)); reflexivity.
+Qed.
+Lemma engine_confirm : forall st, ms_engine (fst (ms_confirm_step st)) = ms_engine st.
+Proof. intro st. unfold ms_confirm_step. destruct (ms_fly st) as [f|]; [|reflexivity]. destruct (if_stage f); reflexivity. Qed.
+Lemma engine_step : forall st l, ms_engine (fst (ms_step st l)) = ms_engine st.
+Proof.
+  intros st l. destruct l; cbn [ms_step fst]; try reflexivity.
+  - destruct (ms_iter_from st q id limit); reflexivity.
+  - destruct (ms_iter st q limit); reflexivity.
+  - destruct (ms_recover st q limit); reflexivity.
+  - apply engine_swap.
+  - apply engine_batch.
+  - apply engine_confirm.
+  - rewrite !seq_steps_fst. rewrite engine_confirm, engine_batch, engine_swap. reflexivity.
+Qed.
+Lemma engine_run : forall ls st, ms_engine (fst (ms_run st ls)) = ms_engine st.
+Proof. induction ls as [|l r IH]; intro st; [reflexivity|]. rewrite run_cons. cbn [fst]. rewrite IH. apply engine_step. Qed.
+
+(* recover(q) lists the surviving messages in increasing id order when q's ids have one decimal length (and are
+   below 2^63, so that FormatInt(int64(id)) prints no sign) - keys sort as strings *)
+Theorem store_recover_order : forall c ls q limit,
+  nof21 (q :: label_names ls) = true ->
+  same_dec_len (ids_for q ls) = true -> forallb id_ok (ids_for q ls) = true ->
+  sorted_ids (fst (ms_recover (fst (ms_run (ms_init Badger true c) ls)) q limit)) = true.
+Proof.
+  intros c ls q limit Hn Hlen Hok.
+  pose proof (src_run (src_of ls) ls (ms_init Badger true c)) as Hs.
+  assert (Hinv : src_inv (src_of ls) (fst (ms_run (ms_init Badger true c) ls))).
+  { apply Hs; [|apply src_init]. intros m q1 Hin. exists q1. split; [reflexivity | exact Hin]. }
+  assert (Hwf : ms_wf (fst (ms_run (ms_init Badger true c) ls))) by (apply wf_run, wf_init).
+  assert (He : ms_engine (fst (ms_run (ms_init Badger true c) ls)) = Badger) by (rewrite engine_run; reflexivity).
+  remember (fst (ms_run (ms_init Badger true c) ls)) as st.
+  destruct Hinv as (Hdb & _). destruct Hwf as (Hsd & _).
+  unfold ms_recover, ms_iter_from. rewrite He. unfold eng_iter_prefix_from. rewrite (proj1 gen_badger_not_stub). cbn [fst].
+  set (L := kv_iter_prefix_from (ms_db st) (msg_prefix_from q) (msg_from_key q 0) limit).
+  apply (sorted_ids_of_keys q L).
+  - apply ksorted_iter_from. exact Hsd.
+  - intros k v Hin. apply in_iter_from in Hin as [Hd Hp]. cbn [fst] in Hp.
+    destruct (Hdb k v Hd) as (m0 & (q0 & Ek & Hl) & Ev). subst k v.
+    assert (Hq : q0 = q).
+    { assert (Hin0 : In q0 (q :: label_names ls)).
+      { right. unfold label_names. apply in_flat_map. destruct Hl as [Hl|Hl]; [exists (MAdd m0 q0) | exists (MUpdate m0 q0)]; (split; [exact Hl | left; reflexivity]). }
+      pose proof (nof21_in _ q q0 Hn (or_introl eq_refl) Hin0) as Hpair. symmetry. eapply prefix_captures_only_own; eassumption. }
+    subst q0. split; [reflexivity|]. cbn [strip m_id]. rewrite forallb_forall in Hok. apply Hok. apply ids_for_in. exact Hl.
+  - intros k1 v1 k2 v2 H1 H2. apply in_iter_from in H1 as [D1 P1]. apply in_iter_from in H2 as [D2 P2]. cbn [fst] in P1, P2.
+    destruct (Hdb k1 v1 D1) as (m1 & (q1 & E1 & L1) & V1). destruct (Hdb k2 v2 D2) as (m2 & (q2 & E2 & L2) & V2). subst.
+    assert (Hq : forall q0 m0, (In (MAdd m0 q0) ls \/ In (MUpdate m0 q0) ls) -> is_prefix (msg_prefix_from q) (msg_key q0 (m_id m0)) = true -> q0 = q).
+    { intros q0 m0 Hl Hp. assert (Hin0 : In q0 (q :: label_names ls)).
+      { right. unfold label_names. apply in_flat_map. destruct Hl as [Hl|Hl]; [exists (MAdd m0 q0) | exists (MUpdate m0 q0)]; (split; [exact Hl | left; reflexivity]). }
+      pose proof (nof21_in _ q q0 Hn (or_introl eq_refl) Hin0) as Hpair. symmetry. eapply prefix_captures_only_own; eassumption. }
+    pose proof (Hq _ _ L1 P1). pose proof (Hq _ _ L2 P2). subst. cbn [strip m_id].
+    eapply same_dec_len_in; [exact Hlen | apply ids_for_in; exact L1 | apply ids_for_in; exact L2].
+Qed.
